@@ -1386,3 +1386,241 @@ def report_suite(run, scratch, seed, n, name="reports"):
                     "(and nested runs without fees) are replayed through ReplayTransactions in a flat strategy: positions and values must be "
                     "reproduced; non-trivial = completed run with at least one transaction",
             "samples": [{"name": c["name"], "tree": c["tree"], "dates": c["dates"][:4]} for c in cases[:2]]}
+
+
+# ---------------------------------------------------------------- C19: wiring, universe scoping, lazy children, settings
+def wiring_oracle(c, nodes_pre, nodes_post):
+    """structure after construction / after the run against the declared tree (property statement, public attributes)"""
+    fails = []
+
+    def nm(i):
+        return "n%03d" % int(i)
+    data_cols = [nm(t) for t, _ in c["prices"]]
+    spec_by_full = {}
+
+    def walk(t, full):
+        spec_by_full[full] = t
+        if t[0] == "strat":
+            for k in t[3]:
+                walk(k, full + ">" + nm(k[1]))
+    walk(c["tree"], nm(c["tree"][1]))
+    top = nm(c["tree"][1])
+    for label, nodes in (("after construction", nodes_pre), ("after the run", nodes_post)):
+        by_full = {n["full"]: n for n in nodes}
+        if len(by_full) != len(nodes):
+            fails.append("%s: two nodes share the full name %s" % (label, [n["full"] for n in nodes if [m["full"] for m in nodes].count(n["full"]) > 1][:1]))
+        for n in nodes:
+            want_full = n["name"] if n["full"] == top else n["parent"] + ">" + n["name"]
+            if n["full"] != want_full:
+                fails.append("%s: full name %s is not parent>name (%s)" % (label, n["full"], want_full))
+            if n["root"] != top:
+                fails.append("%s: root of %s is %s, not %s" % (label, n["full"], n["root"], top))
+            if n["full"] != top and (n["parent"] not in by_full or n["name"] not in by_full[n["parent"]]["children"]):
+                fails.append("%s: %s is not registered among the children of its parent %s" % (label, n["full"], n["parent"]))
+            if len(set(n["children"])) != len(n["children"]) or set(n["children"]) & set(n.get("lazy", [])):
+                fails.append("%s: sibling names under %s are not unique" % (label, n["full"]))
+
+            def pre(m):
+                out = [m["full"]]
+                for k in m["children"]:
+                    if m["full"] + ">" + k in by_full:
+                        out += pre(by_full[m["full"] + ">" + k])
+                return out
+            if n["members"] != pre(n):
+                fails.append("%s: members of %s are %s, the structure says %s" % (label, n["full"], n["members"][:6], pre(n)[:6]))
+            if n["intpos"] != bool(c["intpos"]):
+                fails.append("%s: integer_positions of %s is %s, the backtest was asked for %s" % (label, n["full"], n["intpos"], bool(c["intpos"])))
+            if n["kind"] == "G" and not n.get("comm_ok", True):
+                fails.append("%s: %s does not use the backtest's commission function" % (label, n["full"]))
+        # every declared eager node exists; lazily declared ones exist or are still pending
+        for full, t in spec_by_full.items():
+            if full in by_full:
+                continue
+            par = full.rsplit(">", 1)[0]
+            lazy_decl = t[0] == "sec" and t[5] in ("str", True)
+            if not (lazy_decl and par in by_full and (label == "after the run" or full.rsplit(">", 1)[1] in by_full[par].get("lazy", []))):
+                fails.append("%s: declared node %s is missing" % (label, full))
+    # universe scoping (needs a current date: after the run)
+    for n in nodes_post:
+        if n["kind"] != "G" or n["full"] not in spec_by_full:
+            continue
+        t = spec_by_full[n["full"]]
+        how = t[5] if len(t) > 5 else "list"
+        declared = [nm(k[1]) for k in t[3] if k[0] == "sec"]
+        subs = [nm(k[1]) for k in t[3] if k[0] == "strat"]
+        if t[3] and how != "late":
+            want_t = [x for x in data_cols if x in declared]
+        else:
+            want_t = list(data_cols)
+        got = n.get("univ", [])
+        got_t = [x for x in got if x not in subs]
+        if got_t != want_t:
+            fails.append("universe of %s holds tickers %s, declared %s" % (n["full"], got_t, want_t))
+        if sorted(x for x in got if x in subs) != sorted(subs):
+            fails.append("universe of %s has sub-strategy columns %s, sub-strategies %s" % (n["full"], [x for x in got if x in subs], subs))
+    return fails
+
+
+def eager_twin(c):
+    """the same tree with every lazily declared security (string / lazy_add) constructed up front"""
+    def conv(t):
+        if t[0] == "sec":
+            return ["sec", t[1], t[2], t[3], t[4], False]
+        return [t[0], t[1], t[2], [conv(k) for k in t[3]]] + list(t[4:])
+    r = dict(c)
+    r["tree"] = conv(c["tree"])
+    r["name"] = c["name"] + "_eager"
+    return r
+
+
+def wiring_suite(run, scratch, seed, n):
+    import gen_backtest
+    import random
+    cases = gen_backtest.gen_wiring_cases(seed, n)
+    twins = [eager_twin(c) for c in cases]
+    allc = cases + twins
+    tally = {"equal": 0, "drift": 0, "diff": 0}
+    first_diff = None
+    di, dm = {}, {}
+    for i in range(0, len(allc), 100):
+        part = allc[i:i + 100]
+        di.update(common.parse_dump(common.run_impl(scratch, "impl_wiring.py", json.dumps(part))))
+        dm.update(common.parse_dump(common.run_model("\n".join(common.bt_case_to_sexp(c) for c in part))))
+    structs = {}
+    hist, hows, depth3 = {}, {}, 0
+    bad = 0
+    for c in allc:
+        ic, mc = di.get(c["name"]), dm.get(c["name"])
+        if ic is None or mc is None:
+            tally["diff"] += 1
+            first_diff = first_diff or (c, {"what": "case missing from output"})
+            continue
+        st = ic["steps"][-1]["state"]
+        w = {k: json.loads(st.pop(k)[0]) for k in ("WJSON pre", "WJSON post") if k in st}
+        structs[c["name"]] = w
+        v, d = common.compare_case(ic, mc)
+        tally[v] += 1
+        if v == "diff" and first_diff is None:
+            first_diff = (c, d)
+        s = ic["steps"][-1]["status"]
+        k = s[2] if len(s) > 2 and s[1] == "err" else "completed"
+        hist[k] = hist.get(k, 0) + 1
+
+        def count(t, dep):
+            nonlocal depth3
+            if t[0] == "strat":
+                h = t[5] if len(t) > 5 else "list"
+                hows[h] = hows.get(h, 0) + 1
+                if dep >= 2:
+                    depth3 += 1
+                for kk in t[3]:
+                    count(kk, dep + 1)
+        if not c["name"].endswith("_eager"):
+            count(c["tree"], 0)
+        if k == "completed" and w:
+            fails = wiring_oracle(c, w["WJSON pre"], w["WJSON post"])
+            if fails:
+                bad += 1
+                if bad <= 3:
+                    run.violation({"suite": "wiring", "case": c, "failures": fails[:6]}, "C19: %s (%s)" % (fails[0], c["name"]))
+    # lazy vs eager: same histories (children are created in another order, so totals may differ in the last bits)
+    pairs = moved = lz_bad = 0
+    for c in cases:
+        a, b = di.get(c["name"]), di.get(c["name"] + "_eager")
+        if not a or not b:
+            continue
+        sa, sb = a["steps"][-1], b["steps"][-1]
+        if sa["status"][1] != "ok" or sb["status"][1] != "ok":
+            if sa["status"] != sb["status"]:
+                lz_bad += 1
+                if lz_bad <= 2:
+                    run.violation({"suite": "lazy_vs_eager", "case": c, "lazy_status": sa["status"], "eager_status": sb["status"]},
+                                  "C19: lazily declared children: run ends with %s, with the same securities constructed up front %s (%s)"
+                                  % (" ".join(sa["status"][1:]), " ".join(sb["status"][1:]), c["name"]))
+            continue
+        pairs += 1
+        msg = None
+        scale = max([abs(common.tok_val(t)) for t in sb["state"].get("r hg_values", [])] + [1.0])
+
+        def differs(x, y):
+            vx, vy = common.tok_val(x), common.tok_val(y)
+            if isinstance(vx, float) and isinstance(vy, float):
+                return not (vx == vy or abs(vx - vy) <= 1e-9 * scale)
+            return vx != vy
+        for key, tb in sb["state"].items():
+            f = key.split(" ")[1]
+            if not f.startswith(("h_", "hg_")) or "~" in key:
+                continue
+            ta = sa["state"].get(key)
+            if ta is None:
+                if any(common.tok_val(t) != 0 for t in tb):
+                    msg = "%s exists only in the eager run and is not zero" % key
+                continue
+            if any(common.tok_val(t) != 0 for t in tb) and f == "h_positions":
+                moved += 1
+            if any(differs(x, y) for x, y in zip(ta, tb)):
+                j = [differs(x, y) for x, y in zip(ta, tb)].index(True)
+                msg = "%s row %d: lazy %s, eager %s" % (key, j, common.tok_val(ta[j]), common.tok_val(tb[j]))
+                break
+        if msg:
+            lz_bad += 1
+            if lz_bad <= 2:
+                run.violation({"suite": "lazy_vs_eager", "case": c, "eager_case": eager_twin(c)},
+                              "C19: a lazily created security does not behave like one constructed up front: %s (%s)" % (msg, c["name"]))
+    # duplicate sibling names must be refused
+    rng = random.Random(seed + 9)
+    dups = []
+    for i in range(max(6, n // 10)):
+        c = gen_backtest.gen_wiring_case(rng, "td%04d" % i)
+
+        def strat_nodes(t):
+            out = [t] if t[0] == "strat" and t[3] else []
+            if t[0] == "strat":
+                for k in t[3]:
+                    out += strat_nodes(k)
+            return out
+        tgt = rng.choice(strat_nodes(c["tree"]) or [c["tree"]])
+        if not tgt[3] or (len(tgt) > 5 and tgt[5] == "dict"):
+            continue
+        k = rng.choice(tgt[3])
+        dup = json.loads(json.dumps(k))
+        if dup[0] == "sec":
+            # forms that bt refuses: an eager object twice, a name given twice as a string, an eager object then the string
+            first = rng.choice(["eager", "str"])
+            k[5] = False if first == "eager" else "str"
+            dup[5] = False if first == "eager" and rng.random() < 0.5 else "str"
+        tgt[3].append(dup)
+        dups.append(c)
+    import backtest_corr
+    dres = backtest_corr.run_cases(dups, scratch) if dups else []
+    dup_hist = {}
+    for c, v, d, ic, mc in dres:
+        tally[v] += 1
+        if v == "diff" and first_diff is None:
+            first_diff = (c, d)
+        s = ic["steps"][-1]["status"] if ic else ["?", "?", "missing"]
+        got = s[2] if len(s) > 2 and s[1] == "err" else "no-error"
+        dup_hist[got] = dup_hist.get(got, 0) + 1
+        if got != "EDupChild":
+            bad += 1
+            if bad <= 3:
+                run.violation({"suite": "wiring_duplicates", "case": c, "got": got},
+                              "C19: duplicate sibling names were not refused (got %s) in %s" % (got, c["name"]))
+    if first_diff is not None:
+        c, d = first_diff
+        run.violation({"suite": "wiring", "case": c, "difference": d, "n_disagreeing_cases": tally["diff"],
+                       "broken": "correspondence wiring (model Ops.v build / create_child, Algos.v vs bt/core.py)"},
+                      "correspondence wiring: implementation and model disagree on %d of %d runs; first: %s %s"
+                      % (tally["diff"], len(allc) + len(dups), c["name"], json.dumps(d)[:300]))
+    return {"evaluations": len(allc) + len(dups), "distinct_nontrivial": moved, "traces_validated_against_impl": tally["equal"] + tally["drift"],
+            "bit_drift": tally["drift"], "disagreements": tally["diff"], "final_status_histogram": hist, "construction_histogram": hows,
+            "strategies_at_depth_3": depth3, "lazy_eager_pairs": pairs, "lazy_eager_failures": lz_bad, "duplicate_cases": dup_hist,
+            "oracle_failures": bad,
+            "rule": "trees of depth 1-3 assembled from lists, dicts (names from keys), strings, lazy_add / eager Security objects and sub-strategies "
+                    "attached later with parent=, tickers shared between sub-strategies, strategies that declare no ticker; stacks that act on the "
+                    "universe (SelectAll sees sub-strategy columns); structure (parent, root, members, full names, sibling uniqueness, settings) read "
+                    "from public attributes after construction and after the run, universe columns after the run, against the declared tree; "
+                    "every case also with all lazily declared securities constructed up front (histories must agree, absent nodes must be zero); "
+                    "duplicate sibling names in the forms bt refuses must raise; all runs also compared with the model; non-trivial = security "
+                    "histories with a position in the lazy/eager comparison",
+            "samples": [{"name": c["name"], "tree": c["tree"]} for c in cases[:2]]}
